@@ -102,11 +102,17 @@ Vlayout == { x \in SimpleFor : x.toks[1].t \in LayoutTexts } \cup { WithU(One, M
                            Coll2("seq", Coll2("seq", One, Two), Coll1("seq", Two)) } : Dialect \in c.ds }
 R15 == V1(S("1.50"), N("real", S("1.50"), <<>>), All, TRUE)
 Rexp == V1(S("-1.5e+5"), N("real", S("-1.5e+5"), <<>>), All, TRUE)
+Zero == V1(S("0"), IntN(10, S("0")), All, TRUE)
+RZero == V1(S("0.00"), N("real", S("0.00"), <<>>), All, TRUE)
+RNegZero == V1(S("-0.0"), N("real", S("-0.0"), <<>>), All, TRUE)
 Vhooks == Reals \cup Ints \cup { One, Wa, Coll2("seq", V1(S("+1"), IntN(10, S("+1")), All, TRUE), R15), WithU(V1(S("+1"), IntN(10, S("+1")), All, TRUE), M), WithU(R15, M), WithU(One, M), Coll2("seq", R15, One), Coll2("seq", WithU(R15, M), Rexp),
-                       Coll2("seq", Coll2("seq", R15, One), Coll1("seq", Rexp)), Coll2("set", R15, Wa) }
+                       Coll2("seq", Coll2("seq", R15, One), Coll1("seq", Rexp)), Coll2("set", R15, Wa),
+                       \* zero and negative-zero magnitudes: a value that is falsy in Python still carries its units
+                       WithU(Zero, M), WithU(RZero, M), WithU(RNegZero, M), Coll2("seq", WithU(Zero, M), RNegZero) }
           \cup (IF Dialect \in OdlFam THEN {} ELSE { Coll2("set", One, Coll1("set", R15)), WithU(Coll2("seq", R15, Two), M), WithU(Wa, M) })
 Vuse == IF Profile = "layout" THEN Vlayout ELSE IF Profile = "hooks" THEN Vhooks ELSE Vfull
 NamesFull == { S("B2"), S("a_b"), S("ns:k"), S("^P"), S("x-y"), S("a.b"), S("9a") }
+NamesMissing == { S("^P"), S("ns:k") }
 GroupKw == { S("GROUP"), S("Group"), S("group") } \cup (IF Dialect = "ISIS" THEN {} ELSE { S("BEGIN_GROUP"), S("Begin_Group") })
 ObjectKw == { S("OBJECT"), S("object") } \cup (IF Dialect = "ISIS" THEN {} ELSE { S("BEGIN_OBJECT") })
 EndG == { S("END_GROUP"), S("End_Group"), S("end_group") }
@@ -169,6 +175,8 @@ EndOf(cls) == IF cls = "PVLGroup" THEN S("END_GROUP") ELSE S("END_OBJECT")
 Build ==
    \/ Assign(CanonName, One, FALSE) /\ Same
    \/ \E semi \in BOOLEAN : AssignMissing(CanonName, semi) /\ Same
+   \/ Profile = "missing" /\ ~varied /\ varied' = TRUE                          \* one statement per label with a name that is not a plain identifier
+      /\ \E nm \in NamesMissing : (Assign(nm, One, FALSE) \/ AssignMissing(nm, FALSE))
    \/ \E x \in Vuse, semi \in BOOLEAN : Assign(S("a"), x, semi) /\ Vary
    \/ \E nm \in NamesFull : Assign(nm, Qs, FALSE) /\ Vary
    \/ Begin(S("GROUP"), "PVLGroup", S("g1"), FALSE) /\ Same
@@ -184,7 +192,7 @@ Build ==
 (* ---- layouts ---- *)
 SepsBase == << <<32>>, <<9>>, <<10>>, <<13>>, <<11>>, <<12>>, <<13, 10>>, <<32, 32>>, <<32, 10, 32>>,
                S("/**/"), S("/* c */"), S(" /* c */ "), S("/* * / */"), S("/*/ x */"), S("/***/"), S("/* a") \o LF \o S("b */"),
-               S("/* \" ' */"), S("/* = */"), S("/* END */"), S("/**//**/"), S("/* < */") >>
+               S("/* \" ' */"), S("/* = */"), S("/* END */"), S("/**//**/"), S("/* < */"), S("/* in data/*/") >>
 SepsHash == << S(" # c") \o LF, LF \o S("#c") \o LF \o S("  "), S(" # /* c") \o LF, S(" # = END ' \"") \o LF >>
 Seps == IF HashComments(Dialect) THEN SepsBase \o SepsHash ELSE SepsBase
 Styles == << [opt |-> <<>>, req |-> <<32>>], [opt |-> <<32>>, req |-> <<10>>], [opt |-> <<9>>, req |-> <<13, 10, 32, 32>>],
